@@ -416,6 +416,9 @@ func Generate(seed uint64, prop, tier string) *Plan {
 					op.K, op.N = "stopctx", r.Intn(3)
 				case (x == 7 || x == 8) && dialIdx < len(p.Conns):
 					op.K, op.Conn = []string{"register", "enroll"}[r.Intn(2)], dialIdx
+					if op.K == "enroll" && r.Chance(1, 6) {
+						op.K = "enroll-other"
+					}
 					dialIdx++
 				default:
 					op.K, op.N = "pause", r.Range(1, 40)
@@ -477,7 +480,7 @@ func addStartFault(r *runner.Rand, p *Plan, prop string) {
 		for _, u := range p.Users {
 			for _, op := range u.Ops {
 				switch op.K {
-				case "register", "enroll":
+				case "register", "enroll", "enroll-other":
 					regs++
 					dups++
 				case "dup", "duplistener":
@@ -517,7 +520,7 @@ func addStartFault(r *runner.Rand, p *Plan, prop string) {
 	for _, u := range p.Users {
 		for _, op := range u.Ops {
 			switch op.K {
-			case "dup", "duplistener", "enroll", "cenroll":
+			case "dup", "duplistener", "enroll", "enroll-other", "cenroll":
 				dups++
 			}
 		}
